@@ -104,7 +104,7 @@ Reopen(c) ==
 \* the request pipeline
 
 Respond(c, status, fwd) ==
-  /\ out' = [out EXCEPT ![c] = Append(@, [n |-> nreq[c], status |-> status, forwarded |-> fwd])]
+  /\ out' = [out EXCEPT ![c] = Append(@, [n |-> nreq[c], status |-> status, forwarded |-> fwd, shape |-> req[c].shape])]
   /\ req' = [req EXCEPT ![c] = NoReq]
 
 StartRequest(c, s) ==
